@@ -1389,6 +1389,89 @@ theorem C07_generated_declared_exact (H : Hier) (hd : NoDangling H) (ha : Acycli
   rw [e] at hns hnm ⊢
   exact access_exact hd ha hv scope r hns hnm
 
+/-! ### Round 7: which class a protected member is judged by; siblings under a common ancestor
+
+`Hier` is a parent FUNCTION (`extOf`), so the theorems above already range over trees. What they did not expose is
+the one degree of freedom the seeded change `C07-protected-judged-by-root-declarer` used: the class handed to
+`canAccessMember` need not be the class the walk stopped at. `Model.AccessDecl.Judge` / `accessJ` make it a parameter,
+`Generated.C07Access.judgeRel` regenerates it. -/
+
+/-- **C07_judged_by_nearest_exact.** With the nearest declaration as the judged class (and the directional fallback)
+the access as coded is PHP's rule `allowedOn`, for every hierarchy — trees included —, every assignment of
+declarations PHP accepts, every scope and every receiver class. -/
+theorem C07_judged_by_nearest_exact (H : Hier) (hd : NoDangling H) (ha : Acyclic H) (D : Decls) (hv : ValidOverride H D)
+    (scope : Option Name) (r : Name)
+    (hns : accessJ H .recvExtendsScope .nearest D scope r ≠ .stuck)
+    (hnm : accessJ H .recvExtendsScope .nearest D scope r ≠ .nomember) :
+    accessJ H .recvExtendsScope .nearest D scope r = .allowed ↔ allowedOn H D scope r := by
+  rw [accessJ_nearest] at hns hnm ⊢
+  exact access_exact hd ha hv scope r hns hnm
+
+/-- **C07_sibling_protected_refused.** In every hierarchy: code of a class `s` that is neither the class `d` whose
+PROTECTED declaration the lookup from the receiver's class `r` finds, nor below it, nor above it — a sibling, a
+cousin, an unrelated class — is refused, whatever other classes (a common ancestor included) declare under that
+name, unless `r` is an instance of `s` (then `s` is above `d` or `d` above `s`, excluded by the hypotheses when `s`
+declares nothing; stated here through `¬ Sub H r s`). -/
+theorem C07_sibling_protected_refused (H : Hier) (hd : NoDangling H) (ha : Acyclic H) (D : Decls)
+    (hv : ValidOverride H D) (s r d : Name) (hn : Nearest H D r d) (hp : D d = some .prot)
+    (h1 : ¬ Sub H s d) (h2 : ¬ Sub H d s) (h3 : ¬ Sub H r s) :
+    accessJ H .recvExtendsScope .nearest D (some s) r ≠ .allowed := by
+  intro hacc
+  rw [accessJ_nearest] at hacc
+  have hal := (access_exact hd ha hv (some s) r (by rw [hacc]; decide) (by rw [hacc]; decide)).mp hacc
+  cases hal with
+  | inl x =>
+    obtain ⟨s', hs', hsub, _⟩ := x
+    cases hs'
+    exact h3 hsub
+  | inr x =>
+    obtain ⟨d', m', hn', hm', hal'⟩ := x
+    have hdd := nearest_unique ha hn hn'
+    rw [← hdd, hp] at hm'
+    cases hm'
+    obtain ⟨c, hc, hrel⟩ := hal'
+    cases hc
+    rw [← hdd] at hrel
+    cases hrel with
+    | inl y => exact h1 y
+    | inr y => exact h2 y
+
+/-- **C07_topmost_judge_counterexample.** (the seeded change `C07-protected-judged-by-root-declarer`, replayed by
+the shadowing stream on trees as `shadow:leak:*:prot:sibling`) Classes 2 and 3 extend 1; 3 declares the member
+protected, 1 declares the name PRIVATE. Judged by the top-most declaring class, code of 2 uses the protected member
+of 3 on an object of 3; judged by the nearest declaration it is refused, judged by PHP's method prototype (which a
+private declaration never is) it is refused, and the specification refuses. -/
+theorem C07_topmost_judge_counterexample :
+    accessJ sibH .recvExtendsScope .topmost (sibD .priv) (some 2) 3 = .allowed ∧
+    accessJ sibH .recvExtendsScope .nearest (sibD .priv) (some 2) 3 = .denied ∧
+    accessJ sibH .recvExtendsScope .prototype (sibD .priv) (some 2) 3 = .denied ∧
+    ¬ allowedOn sibH (sibD .priv) (some 2) 3 :=
+  ⟨by decide, by decide, by decide, sib_not_allowedOn .priv⟩
+
+/-- **C07_prototype_judge_witness.** (known finding `shadow:refused:*:prot:sibling`) When the common ancestor's
+declaration is PROTECTED, PHP judges an overriding protected METHOD by the class of its prototype — code of the
+sibling 2 may call it —, while the nearest-declaration rule origami applies refuses: an over-refusal, never a leak
+(`C07_judged_by_nearest_exact` + `C07_sibling_protected_refused`). Both other judges agree there. -/
+theorem C07_prototype_judge_witness :
+    accessJ sibH .recvExtendsScope .prototype (sibD .prot) (some 2) 3 = .allowed ∧
+    accessJ sibH .recvExtendsScope .topmost (sibD .prot) (some 2) 3 = .allowed ∧
+    accessJ sibH .recvExtendsScope .nearest (sibD .prot) (some 2) 3 = .denied := by decide
+
+/-- **C07_protected_judged_by_nearest.** Obligation on the regenerated fact: `canAccessDeclared` hands the class its
+walk stopped at to `canAccessMember` (no statement between the walk and the test). -/
+theorem C07_protected_judged_by_nearest : Generated.C07Access.judgeRel = .nearest := by decide
+
+/-- **C07_generated_judged_exact.** `C07_judged_by_nearest_exact` for the two facts regenerated on this run. -/
+theorem C07_generated_judged_exact (H : Hier) (hd : NoDangling H) (ha : Acyclic H) (D : Decls)
+    (hv : ValidOverride H D) (scope : Option Name) (r : Name)
+    (hns : accessJ H Generated.C07Access.fallbackRel Generated.C07Access.judgeRel D scope r ≠ .stuck)
+    (hnm : accessJ H Generated.C07Access.fallbackRel Generated.C07Access.judgeRel D scope r ≠ .nomember) :
+    accessJ H Generated.C07Access.fallbackRel Generated.C07Access.judgeRel D scope r = .allowed ↔ allowedOn H D scope r := by
+  have e := C07_fallback_directional
+  have e2 := C07_protected_judged_by_nearest
+  rw [e, e2] at hns hnm ⊢
+  exact C07_judged_by_nearest_exact H hd ha D hv scope r hns hnm
+
 end Shadow
 
 /-- **C07_known_tightened.** The known tables shrank: no arm and no boundary is known worse than before the
